@@ -64,6 +64,10 @@ def create_table(probabilities, states):
 
     sum_probabilities = sum(thetas)
 
+    if len(J) == 256 and -1 not in J:
+        # every probability is a multiple of 1/256: the table is complete and the alias method is never needed
+        return J, None
+
     if sum_probabilities > 0:
         scaled_probabilities = thetas / sum_probabilities
         alias_method = AliasMethod(scaled_probabilities, states)
